@@ -1272,3 +1272,111 @@ fn c16_fromstr_label_63_64() {
     assert!(text.parse::<Box<Name>>().is_err(), "[C16] FromStr rejects a 64-octet label");
     kani::cover!(true, "both texts parsed");
 }
+
+// --------------------------------------------------------------------------
+// (a) round trip for the larger shapes, split at a reference text
+//
+// Display -> FromStr in ONE query runs out of memory (> 8.8 GB RSS, 1.8 M
+// steps) from three symbolic octets on.  For the shapes (1,2), (2,1), (2,2)
+// the round trip is therefore proved in two halves that meet at the text
+// `ref_render(wire)` written here from RFC 1035 section 5.1 / RFC 4343
+// section 2.1:
+//   display_*:         Display(name)            == ref_render(wire)
+//   parse_rendered_*:  FromStr(ref_render(wire)) has the wire form `wire`
+// Both quantify over the same set of names, so together they give
+// FromStr(Display(name)).wire == name.wire for every name of the shape.
+// --------------------------------------------------------------------------
+
+struct Text {
+    buf: [u8; 24],
+    len: usize,
+}
+
+impl Text {
+    fn push(&mut self, b: u8) {
+        self.buf[self.len] = b;
+        self.len += 1;
+    }
+    fn bytes(&self) -> &[u8] {
+        &self.buf[..self.len]
+    }
+}
+
+/// Master-file text of a wire name: labels separated and terminated by dots,
+/// `.` and `\` inside a label escaped with a backslash, octets outside the
+/// printable ASCII range 0x21..=0x7e as backslash + three decimal digits.
+fn ref_render(w: &[u8]) -> Text {
+    let mut t = Text { buf: [0; 24], len: 0 };
+    if w.len() == 1 {
+        t.push(b'.');
+        return t;
+    }
+    let mut p = 0;
+    while w[p] != 0 {
+        let l = w[p] as usize;
+        let mut i = 0;
+        while i < l {
+            let o = w[p + 1 + i];
+            if o == b'.' || o == b'\\' {
+                t.push(b'\\');
+                t.push(o);
+            } else if o > 0x20 && o < 0x7f {
+                t.push(o);
+            } else {
+                t.push(b'\\');
+                t.push(b'0' + o / 100);
+                t.push(b'0' + (o / 10) % 10);
+                t.push(b'0' + o % 10);
+            }
+            i += 1;
+        }
+        t.push(b'.');
+        p += 1 + l;
+    }
+    t
+}
+
+fn display_is_reference(w: &[u8]) {
+    use std::fmt::Write;
+    let st = Stack::of(w);
+    let mut sink = Sink { buf: [0; 24], len: 0 };
+    let r = write!(sink, "{}", st.name());
+    assert!(r.is_ok(), "[C16] rendering a name does not fail");
+    let want = ref_render(w);
+    assert!(same(&sink.buf[..sink.len], want.bytes()), "[C16] Display renders the RFC 1035 master-file text of the name");
+}
+
+fn rendered_parses_back(w: &[u8]) {
+    let t = ref_render(w);
+    // sound: ref_render writes ASCII only
+    let text = unsafe { std::str::from_utf8_unchecked(t.bytes()) };
+    match text.parse::<Box<Name>>() {
+        Ok(back) => {
+            assert!(same(back.wire_repr(), w), "[C16] the rendered text parses back to the identical wire form");
+            std::mem::forget(back);
+        }
+        Err(_) => assert!(false, "[C16] the rendered text parses back"),
+    }
+}
+
+// @harness props=C16 tier=thorough mem=8 t=3400 fn="<Name as Display>::fmt,<Label as Display>::fmt"
+//   bound="every name of labels (2,2) octets (2^32 names): Display output equals the reference text; unwind 20" sym="o:[u8;4]"
+#[kani::proof]
+#[kani::unwind(20)]
+fn c16_display_2_2() {
+    let o: [u8; 4] = kani::any();
+    display_is_reference(&[2, o[0], o[1], 2, o[2], o[3], 0]);
+    kani::cover!(special(o[0]) && special(o[1]) && special(o[2]) && special(o[3]), "all octets need care");
+    kani::cover!(o[0] == b'a' && o[1] == b'.' && o[2] == 0xff && o[3] == b'\\', "one octet of each kind");
+}
+
+// @harness props=C16 tier=thorough mem=8 t=3400 fn="<Box<Name> as FromStr>::from_str,parse_escape,NameBuilder::try_push,NameBuilder::next_label,NameBuilder::finish"
+//   bound="every name of labels (2,2) octets (2^32 names): the reference text (7..=19 octets) parses to the same wire form; unwind 21" sym="o:[u8;4]"
+#[kani::proof]
+#[kani::unwind(21)]
+fn c16_parse_rendered_2_2() {
+    let o: [u8; 4] = kani::any();
+    rendered_parses_back(&[2, o[0], o[1], 2, o[2], o[3], 0]);
+    kani::cover!(special(o[0]) && special(o[1]) && special(o[2]) && special(o[3]), "all octets need care");
+    kani::cover!(o[0] == b'a' && o[1] == b'.' && o[2] == 0xff && o[3] == b'\\', "one octet of each kind");
+}
